@@ -46,7 +46,7 @@ class Gen2(M.Gen):
         r = self.rng
         k = r.randint(0, 6)
         if k == 0:
-            return E(Bin("forEach", Code(self.mark(Var("_x")), *inner), self.arr(0)))
+            return E(Bin("forEach", Code(self.mark(Arr(Var("_x"), Var("_forEachIndex"))), *inner), self.arr(0)))
         if k == 1:
             v = r.choice(["_i", "_k"])
             return E(Bin("do", Bin("to", Bin("from", Un("for", S(v)), N(r.randint(0, 2))), N(r.randint(0, 4))), Code(self.mark(Var(v)), *inner)))
@@ -54,9 +54,9 @@ class Gen2(M.Gen):
             v = r.choice(self.locals)
             return E(Bin("do", Un("while", Code(E(Bin("<", Var(v), N(r.randint(1, 4)))))), Code(Asg(v, Bin("+", Var(v), N(1))), self.mark(Var(v)), *inner)))
         if k == 3:
-            return E(Bin("count", Code(self.mark(Var("_x")), *inner, E(Bin(">", Var("_x"), N(2)))), self.arr(0)))
+            return E(Bin("count", Code(self.mark(Var("_x")), *self.idx_mark(), *inner, E(Bin(">", Var("_x"), N(2)))), self.arr(0)))
         if k == 4:
-            return E(Bin("apply", self.arr(0), Code(*inner, E(Bin("+", Var("_x"), N(1))))))
+            return E(Bin("apply", self.arr(0), Code(*self.idx_mark(), *inner, E(Bin("+", Var("_x"), N(1))))))
         if k == 5:
             v = r.choice(["_i", "_k"])
             return E(Bin("do", Bin("step", Bin("to", Bin("from", Un("for", S(v)), N(r.randint(2, 5))), N(r.randint(-1, 2))), N(-r.randint(1, 2))),
